@@ -90,6 +90,11 @@ def generate(seed, tier="quick"):
     if mrng.random() < 0.2:
         # the observed object is mutated after the comparison (the read-back compares before it mutates, too)
         W.add_mutation_test(mrng, prog["files"][0], style=mrng.choice(["rec", "assert"]))
+    wrng = sub(seed, "twin")
+    if wrng.random() < 0.1:
+        # a second module with the same text layout (same helper functions on the same lines): call sites of different files stay apart
+        W.add_twin_file(prog, wrng, vary=wrng.random() < 0.6)
+    W.sprinkle_uni(prog, sub(seed, "uni"), 0.05)
     return {"program": prog, "driver": driver, "fmt": draw_fmt(sub(seed, "fmt"))}
 
 
@@ -145,6 +150,10 @@ def strict_equal(a, b):
         return False
 
 
+# exception types that no generated program raises on its own (the vocabulary raises ValueError / TypeError, misuse gives UsageError)
+LIBRARY_EXCEPTIONS = {"RuntimeError", "AttributeError", "NameError", "StopIteration", "RecursionError", "UnboundLocalError", "NotImplementedError"}  # (KeyError / IndexError: the mutation statements of a program may raise them)
+
+
 def execute(case, ctx):
     prog, driver, fmt = case["program"], case["driver"], case["fmt"]
     files, orders = P.render(prog, drivers.simlib_text())
@@ -167,7 +176,15 @@ def execute(case, ctx):
         for e in evs:
             for a in srec.get(e["eid"], []):
                 if isinstance(a, str) and a.startswith("E:"):
+                    if a[2:] in LIBRARY_EXCEPTIONS:
+                        # nothing in the generated programs raises these: the comparison died inside the library, in a session that
+                        # approves create / fix - the snapshot was reached and is not repaired
+                        out["violations"].append({"clause": "comparison-completes", "sig": f"comparison-raised-{a[2:]}-in-approving-session:{sidx[sid][1]['op']}",
+                                                  "detail": f"site {sid} ({sidx[sid][1]['op']}, {sidx[sid][1]['place']}) driver={driver} fmt={fmt_tag(fmt)}: event {e['eid']} answered {a}\n"
+                                                            f"  previous: {sidx[sid][1].get('arg')!r:.300}\n  observed: {', '.join(V.expr(v) for v in e.get('vals', [])[:2])[:400]}"})
+                        continue
                     exempt.add(sid)
+                    ctx.count("site_exempt_comparison_raised_" + a[2:])
     if driver == "plugin":
         for nodeid, t in res.get("tests", {}).items():
             if t.get("call") == "failed":
@@ -177,6 +194,10 @@ def execute(case, ctx):
                     for tt in f["tests"]:
                         if tt["name"] == tn:
                             exempt.update(e["site"] for e in tt["events"] if e.get("t") == "cmp")
+    if driver == "inline" and res.get("raises") and str(res["raises"]).split(":")[0].strip() in LIBRARY_EXCEPTIONS:
+        out["violations"].append({"clause": "comparison-completes", "sig": f"test-died-with-{str(res['raises']).split(':')[0].strip()}-in-approving-session",
+                                  "detail": f"driver=inline fmt={fmt_tag(fmt)} flags={case.get('flags', 'create')}: {str(res['raises'])[:600]}"})
+        return out
     elif res.get("raises") and not case.get("allow_raises"):
         # run_inline: some test raised unexpectedly (usage error); later sites of that test were not reached
         out["discards"]["test-raised-in-inline-session"] = 1
